@@ -9,4 +9,14 @@
 #define TAO_PEGTL_NAMESPACE tao::pegtl
 #endif
 
+// Verification hook: with TAO_PEGTL_VERIF defined every peek / bump of an input reports what it accesses and how much
+// of its window is available; the hook function is supplied by the verification harness.  Expands to nothing otherwise.
+#if defined( TAO_PEGTL_VERIF )
+#include <cstddef>
+extern "C" void tao_pegtl_verif_access( int kind, std::size_t amount, std::size_t available ) noexcept;
+#define TAO_PEGTL_VERIF_ACCESS( K, N, A ) ::tao_pegtl_verif_access( ( K ), ( N ), ( A ) )
+#else
+#define TAO_PEGTL_VERIF_ACCESS( K, N, A ) ( (void)0 )
+#endif
+
 #endif
